@@ -38,8 +38,18 @@ const (
 	shNegGrep
 	shGrepCount
 	shExistsTwo
+	shBuiltinCond
 	shNumShapes
 )
+
+// built-in conditions and whether they hold where the checks run (linux, gc, a go1.2x toolchain)
+var vBuiltinConds = []struct {
+	name  string
+	holds bool
+}{
+	{"linux", true}, {"windows", false}, {"gc", true},
+	{"go1.9", true}, {"go1.100", false}, {"go2.1", false},
+}
 
 type vLine struct {
 	shape int
@@ -108,6 +118,15 @@ func VerifC01Verdict() {
 			sb.WriteString("grep foo c.txt")
 		case shNegGrep:
 			sb.WriteString("! grep foo c.txt")
+		case shBuiltinCond:
+			// a built-in condition of either polarity guarding a probe
+			l.cond = rt.IntRange(0, len(vBuiltinConds)-1)
+			l.neg = rt.Bool()
+			pre := "[" + vBuiltinConds[l.cond].name + "] "
+			if l.neg {
+				pre = "[!" + vBuiltinConds[l.cond].name + "] "
+			}
+			sb.WriteString(pre + p)
 		case shExistsTwo:
 			// exists / ! exists with two arguments: present or absent in each position
 			l.cond = rt.IntRange(0, 3)
@@ -246,6 +265,11 @@ func VerifC01Verdict() {
 			lineFails = nfoo == 0
 		case shNegGrep:
 			lineFails = nfoo > 0
+		case shBuiltinCond:
+			if vBuiltinConds[l.cond].holds != l.neg {
+				ran[i] = true
+				lineFails = !ok[i]
+			}
 		case shExistsTwo:
 			present := [][2]bool{{true, true}, {true, false}, {false, true}, {false, false}}[l.cond]
 			if l.neg {
